@@ -1,5 +1,6 @@
 import OdfModel.Entity
 import OdfModel.EntityEnc
+import OdfModel.EntityDamage
 /-
   drv_entity — line protocol for the C13 model (OdfModel.Entity + the regenerated parse-site inventory).
 
@@ -14,6 +15,10 @@ import OdfModel.EntityEnc
                                                      -> err undecodable | (as `read`)
        as `read`, the bytes of <target> being valid UTF-8 (<utf8> = 1) or not (<utf8> = 0: UTF-16 with a byte order
        mark, an 8-bit encoding with a non-ASCII byte, ...): `Entity.readE` of OdfModel.EntityEnc
+    readdmg <ep> <target> <decl> <ext> <damaged> <n> <file>*n <k> <entry>*k
+                                                     -> err not-well-formed | (as `read`)
+       as `read`, the member <damaged> being not well-formed XML (empty, truncated, broken markup): `Entity.readD` of
+       OdfModel.EntityDamage
     sites                                            -> ok <number of library sites> <number of script sites>
 -/
 open OdfModel OdfModel.Entity
@@ -86,6 +91,17 @@ def handle (line : String) : String :=
       | .error (.refused e) => "err " ++ showErr e
       | .ok os => if os.any (·.expanded) then "ok expanded" else "ok clean"
     | _, _, _ => "err bad-arg"
+  | "readdmg" :: ep :: target :: decl :: ext :: dmg :: rest =>
+    match ep.toNat? >>= EP.ofCode, Wire.dec target, Wire.dec dmg, parsePkgArgs rest with
+    | some ep, some target, some dmg, some (files, man) =>
+      let bad : XmlMember := ⟨decl == "1", ext == "1"⟩
+      let p : PkgD := { pkg := { files := files.map (fun f => (f, if f == target then bad else XmlMember.clean)), manifest := man },
+                        damaged := [dmg] }
+      match readD observed Prep.id ep p with
+      | .error .notWellFormed => "err not-well-formed"
+      | .error (.refused e) => "err " ++ showErr e
+      | .ok os => if os.any (·.expanded) then "ok expanded" else "ok clean"
+    | _, _, _, _ => "err bad-arg"
   | _ => "err bad-op"
 
 partial def loop (h : IO.FS.Stream) (out : IO.FS.Stream) : IO Unit := do
